@@ -974,3 +974,235 @@ impl Engine for RangeSetHistory {
         out
     }
 }
+
+// ------------------------------------------------------------------ FontBuilder histories (C06)
+
+use crate::ift::sim::check_container;
+use std::collections::BTreeMap;
+use write_fonts::types::Tag;
+use write_fonts::FontBuilder;
+
+#[derive(Clone, Debug, Serialize, Deserialize, PartialEq)]
+pub enum FbOp {
+    AddRaw { tag: [u8; 4], len: u32, seed: u64 },
+    /// copy missing tables from the source font built in phase 1
+    CopyFromSource,
+    /// copy missing tables from a corpus font
+    CopyFromCorpus { font: usize },
+    Contains { tag: [u8; 4] },
+    CloneAndContinue,
+}
+
+#[derive(Clone, Debug, Serialize, Deserialize)]
+pub struct FbTrace {
+    /// tables of the source font (built first, with the builder itself)
+    pub source: Vec<([u8; 4], u32, u64)>,
+    pub ops: Vec<FbOp>,
+    pub shuffle_seed: u64,
+}
+
+pub struct FontBuilderHistory;
+
+const FB_TAGS: [[u8; 4]; 14] = [*b"head", *b"CFF ", *b"DSIG", *b"glyf", *b"loca", *b"cmap", *b"OS/2", *b"name", *b"zzzz", *b"AAAA", *b"hhea", *b"maxp", *b"post", *b"a  b"];
+
+fn table_bytes(seed: u64, len: u32) -> Vec<u8> {
+    Rng::new(seed).bytes(len as usize)
+}
+
+fn gen_len(rng: &mut Rng) -> u32 {
+    match rng.below(10) {
+        0 => 0,
+        1 => 1 + rng.below(3) as u32,
+        2 => 11,
+        3 => 12,
+        4 => 54,
+        5..=7 => rng.below(200) as u32,
+        8 => 1000 + rng.below(5000) as u32,
+        _ => 70_000 + rng.below(5) as u32,
+    }
+}
+
+fn verify_image(img: &[u8], model: &BTreeMap<[u8; 4], Vec<u8>>) -> Result<(), (String, String)> {
+    check_container(img).map_err(|e| ("C06.container".to_string(), e))?;
+    let f = read_fonts::FontRef::new(img).map_err(|e| ("C06.opens".to_string(), format!("{e}")))?;
+    let tags: Vec<[u8; 4]> = f.table_directory.table_records().iter().map(|r| r.tag().to_be_bytes()).collect();
+    let want: Vec<[u8; 4]> = model.keys().copied().collect();
+    if tags != want {
+        return Err(("C06.tag_list".into(), format!("directory lists {:?}, expected {:?}", tags.iter().map(|t| String::from_utf8_lossy(t).to_string()).collect::<Vec<_>>(), want.iter().map(|t| String::from_utf8_lossy(t).to_string()).collect::<Vec<_>>())));
+    }
+    for (t, d) in model {
+        let got = f.table_data(Tag::new(t)).map(|x| x.as_bytes().to_vec()).ok_or(("C06.table_lookup".to_string(), format!("table {} not found by tag", String::from_utf8_lossy(t))))?;
+        let same = if t == b"head" && d.len() >= 12 { got.len() == d.len() && got[..8] == d[..8] && got[12..] == d[12..] } else { &got == d };
+        if !same {
+            return Err(("C06.table_bytes".into(), format!("table {} returns {} bytes that differ from the {} bytes supplied", String::from_utf8_lossy(t), got.len(), d.len())));
+        }
+    }
+    // binary-search header fields
+    let n = u16::from_be_bytes([img[4], img[5]]) as u32;
+    if n as usize != model.len() {
+        return Err(("C06.num_tables".into(), format!("numTables {n}, expected {}", model.len())));
+    }
+    if n > 0 {
+        let sr = u16::from_be_bytes([img[6], img[7]]) as u32;
+        let es = u16::from_be_bytes([img[8], img[9]]) as u32;
+        let rs = u16::from_be_bytes([img[10], img[11]]) as u32;
+        let log = 31 - n.leading_zeros();
+        if sr != 16 << log || es != log || rs != n * 16 - sr {
+            return Err(("C06.search_fields".into(), format!("searchRange/entrySelector/rangeShift = {sr}/{es}/{rs} for {n} tables")));
+        }
+    }
+    Ok(())
+}
+
+impl Engine for FontBuilderHistory {
+    type Trace = FbTrace;
+    fn name(&self) -> &'static str {
+        "fontbuilder_history"
+    }
+    fn rule(&self) -> &'static str {
+        "case = history of add_raw (any tag incl. head/CFF /DSIG, lengths 0..70k, every length mod 4, repeated tags), copy_missing_tables (from an earlier output or a corpus font), contains, clone, build; the image is checked against a BTreeMap<Tag, bytes> model and the sfnt container invariants, and rebuilt under a shuffled insertion order; non-trivial iff a tag was overwritten or a copy met an existing tag"
+    }
+    fn components(&self) -> &'static str {
+        "real: write_fonts::FontBuilder (add_raw, copy_missing_tables, contains, ordered_tags, clone, build), read_fonts::FontRef; model: BTreeMap<Tag, bytes>"
+    }
+    fn generate(&self, case_seed: u64) -> FbTrace {
+        let mut rng = Rng::new(case_seed);
+        let mut source = Vec::new();
+        for _ in 0..rng.below(6) {
+            source.push((*rng.pick(&FB_TAGS), gen_len(&mut rng), rng.next_u64()));
+        }
+        let mut ops = Vec::new();
+        for _ in 0..(1 + rng.below(12)) {
+            ops.push(match rng.below(10) {
+                0..=5 => FbOp::AddRaw { tag: if rng.chance(1, 10) { [b'Q', b'0' + rng.below(10) as u8, b' ', b' '] } else { *rng.pick(&FB_TAGS) }, len: gen_len(&mut rng), seed: rng.next_u64() },
+                6 => FbOp::CopyFromSource,
+                7 => FbOp::CopyFromCorpus { font: rng.usize_below(crate::corpus::corpus().len()) },
+                8 => FbOp::Contains { tag: *rng.pick(&FB_TAGS) },
+                _ => FbOp::CloneAndContinue,
+            });
+        }
+        FbTrace { source, ops, shuffle_seed: rng.next_u64() }
+    }
+    fn execute(&self, t: &mut FbTrace, stats: &mut Stats) -> Verdict {
+        let fail = |oracle: &str, detail: String| Verdict::Fail(Violation::new("C06", oracle, detail));
+        // phase 1: source font
+        let mut src_model: BTreeMap<[u8; 4], Vec<u8>> = BTreeMap::new();
+        let mut sb = FontBuilder::new();
+        for (tag, len, seed) in &t.source {
+            let d = table_bytes(*seed, *len);
+            sb.add_raw(Tag::new(tag), d.clone());
+            src_model.insert(*tag, d);
+        }
+        let source_img = sb.build();
+        stats.bump("oracle.C06.image_vs_model");
+        if let Err((o, d)) = verify_image(&source_img, &src_model) {
+            return fail(&o, format!("source font: {d}"));
+        }
+        let source_ref = match read_fonts::FontRef::new(&source_img) {
+            Ok(f) => f,
+            Err(e) => return fail("C06.opens", format!("source font: {e}")),
+        };
+        // phase 2: history
+        let mut model: BTreeMap<[u8; 4], Vec<u8>> = BTreeMap::new();
+        let mut b = FontBuilder::new();
+        let mut nontrivial = false;
+        for (i, op) in t.ops.iter().enumerate() {
+            match op {
+                FbOp::AddRaw { tag, len, seed } => {
+                    let d = table_bytes(*seed, *len);
+                    if model.contains_key(tag) {
+                        nontrivial = true;
+                        stats.bump("probe.C06.tag_overwritten");
+                    }
+                    b.add_raw(Tag::new(tag), d.clone());
+                    model.insert(*tag, d);
+                }
+                FbOp::CopyFromSource => {
+                    b.copy_missing_tables(source_ref.clone());
+                    for (k, v) in &src_model {
+                        if model.contains_key(k) {
+                            nontrivial = true;
+                            stats.bump("probe.C06.copy_met_existing_tag");
+                        } else {
+                            // what the source font returns for the tag (head carries the adjustment)
+                            let got = source_ref.table_data(Tag::new(k)).map(|x| x.as_bytes().to_vec()).unwrap_or_else(|| v.clone());
+                            model.insert(*k, got);
+                        }
+                    }
+                }
+                FbOp::CopyFromCorpus { font } => {
+                    let cf = &crate::corpus::corpus()[*font];
+                    if let Ok(fr) = read_fonts::FontRef::new(cf.data) {
+                        b.copy_missing_tables(fr.clone());
+                        for r in fr.table_directory.table_records() {
+                            let k = r.tag().to_be_bytes();
+                            if model.contains_key(&k) {
+                                nontrivial = true;
+                                stats.bump("probe.C06.copy_met_existing_tag");
+                            } else if let Some(d) = fr.table_data(r.tag()) {
+                                model.insert(k, d.as_bytes().to_vec());
+                            }
+                        }
+                    }
+                }
+                FbOp::Contains { tag } => {
+                    if b.contains(Tag::new(tag)) != model.contains_key(tag) {
+                        return fail("C06.contains", format!("op {i}: contains({}) = {}", String::from_utf8_lossy(tag), b.contains(Tag::new(tag))));
+                    }
+                }
+                FbOp::CloneAndContinue => {
+                    b = b.clone();
+                }
+            }
+            let ot: Vec<[u8; 4]> = b.ordered_tags().iter().map(|x| x.to_be_bytes()).collect();
+            let mut sorted = ot.clone();
+            sorted.sort();
+            if sorted != model.keys().copied().collect::<Vec<_>>() {
+                return fail("C06.ordered_tags", format!("op {i}: ordered_tags() is not a permutation of the tags added"));
+            }
+        }
+        let img = b.build();
+        stats.bump("oracle.C06.image_vs_model");
+        if let Err((o, d)) = verify_image(&img, &model) {
+            return fail(&o, d);
+        }
+        // build drains the builder
+        if model.keys().any(|k| b.contains(Tag::new(k))) {
+            return fail("C06.build_drains", "builder still contains tables after build".into());
+        }
+        // same content, shuffled insertion order
+        let mut items: Vec<(&[u8; 4], &Vec<u8>)> = model.iter().collect();
+        Rng::new(t.shuffle_seed).shuffle(&mut items);
+        let mut b2 = FontBuilder::new();
+        for (k, v) in items {
+            b2.add_raw(Tag::new(k), v.clone());
+        }
+        let img2 = b2.build();
+        stats.bump("oracle.C06.insertion_order_independent");
+        if img2 != img {
+            return fail("C06.insertion_order", format!("the same {} tables added in another order give different bytes ({} vs {})", model.len(), img.len(), img2.len()));
+        }
+        let mut d = Digest::new();
+        d.bytes(&img);
+        Verdict::Pass { digest: d.finish(), sig: fnv(serde_json::to_string(&(&t.source, &t.ops)).unwrap_or_default().as_bytes()), nontrivial }
+    }
+    fn shrink(&self, t: &FbTrace) -> Vec<FbTrace> {
+        let mut out = Vec::new();
+        for ops in drop_chunks(&t.ops) {
+            out.push(FbTrace { ops, ..t.clone() });
+        }
+        for source in drop_chunks(&t.source) {
+            out.push(FbTrace { source, ..t.clone() });
+        }
+        for (i, op) in t.ops.iter().enumerate() {
+            if let FbOp::AddRaw { tag, len, seed } = op {
+                if *len > 16 {
+                    let mut c = t.clone();
+                    c.ops[i] = FbOp::AddRaw { tag: *tag, len: len / 2, seed: *seed };
+                    out.push(c);
+                }
+            }
+        }
+        out
+    }
+}
